@@ -54,22 +54,25 @@ Proof.
   apply Rmult_le_compat_l; [lra|]. apply Rabs_le. lra.
 Qed.
 
-(* zeros: with the placeholder a*e and the threshold b*e below the smallest log-magnitude, a - 1 > b > 1, an exact zero
-   always decodes below the threshold and a non-zero value never does, whatever error of at most e the codec makes *)
-Theorem zero_below_threshold : forall a b minlog e y', 0 < e -> b + 1 < a ->
-  Rabs (y' - zero_placeholder a minlog e) <= e -> y' < zero_threshold b minlog e.
+(* zeros: with the placeholder a*e + ta*t and the threshold b*e + tb*t below the smallest log-magnitude, a - 1 > b > 1 and
+   ta >= tb >= 0, an exact zero always decodes below the threshold and a non-zero value never does, whatever error of at
+   most e the codec makes *)
+Theorem zero_below_threshold : forall a ta b tb minlog e t y', 0 < e -> 0 <= t -> b + 1 < a -> tb <= ta ->
+  Rabs (y' - zero_placeholder a ta minlog e t) <= e -> y' < zero_threshold b tb minlog e t.
 Proof.
-  unfold zero_placeholder, zero_threshold. intros a b minlog e y' He Hab H. apply Rabs_def2b in H. nra.
+  unfold zero_placeholder, zero_threshold. intros a ta b tb minlog e t y' He Ht Hab Htt H. apply Rabs_def2b in H.
+  assert (tb * t <= ta * t) by (apply Rmult_le_compat_r; assumption). nra.
 Qed.
-Theorem nonzero_above_threshold : forall b minlog e y y', 0 < e -> 1 < b -> minlog <= y ->
-  Rabs (y' - y) <= e -> ~ y' < zero_threshold b minlog e.
+Theorem nonzero_above_threshold : forall b tb minlog e t y y', 0 < e -> 0 <= t -> 1 < b -> 0 <= tb -> minlog <= y ->
+  Rabs (y' - y) <= e -> ~ y' < zero_threshold b tb minlog e t.
 Proof.
-  unfold zero_threshold. intros b minlog e y y' He Hb Hy H. apply Rabs_def2b in H. nra.
+  unfold zero_threshold. intros b tb minlog e t y y' He Ht Hb Htb Hy H. apply Rabs_def2b in H.
+  assert (0 <= tb * t) by (apply Rmult_le_pos; assumption). nra.
 Qed.
 
-(* the constants before the repair (2.0001 and 1.0001) left no margin on the zero side *)
+(* the constants before the repair (2.0001 and 1.0001, no rounding term) left no margin on the zero side *)
 Theorem old_zero_edge_refuted : exists minlog e y', 0 < e /\
-  Rabs (y' - zero_placeholder 2.0001 minlog e) <= e /\ ~ y' < zero_threshold 1.0001 minlog e.
+  Rabs (y' - zero_placeholder 2.0001 0 minlog e 0) <= e /\ ~ y' < zero_threshold 1.0001 0 minlog e 0.
 Proof.
   exists 0, 1, (-1.0001). unfold zero_placeholder, zero_threshold. split; [lra|]. split.
   - apply Rabs_le. lra.
@@ -77,24 +80,24 @@ Proof.
 Qed.
 
 (* one element through the whole log-transform path *)
-Theorem pwrel_element : forall a b r minlog x y',
-  0 < r -> b + 1 < a -> 1 < b ->
+Theorem pwrel_element : forall a ta b tb r minlog t x y',
+  0 < r -> 0 <= t -> b + 1 < a -> 1 < b -> tb <= ta -> 0 <= tb ->
   (x <> 0 -> minlog <= log2R (Rabs x)) ->
-  Rabs (y' - to_log a minlog (log2R (1 + r)) x) <= log2R (1 + r) ->
-  let x' := from_log b minlog (log2R (1 + r)) (is_neg x) y' in
+  Rabs (y' - to_log a ta minlog (log2R (1 + r)) t x) <= log2R (1 + r) ->
+  let x' := from_log b tb minlog (log2R (1 + r)) t (is_neg x) y' in
   Rabs (x' - x) <= r * Rabs x /\ (x = 0 -> x' = 0) /\ (0 < x -> 0 < x') /\ (x < 0 -> x' < 0).
 Proof.
-  intros a b r minlog x y' Hr Hab Hb Hmin H x'.
+  intros a ta b tb r minlog t x y' Hr Ht Hab Hb Htt Htb Hmin H x'.
   assert (He : 0 < log2R (1 + r)).
   { unfold log2R. apply Rdiv_lt_0_compat; [|apply ln2_pos]. rewrite <- ln_1. apply ln_increasing; lra. }
   unfold to_log in H. subst x'. unfold from_log.
   destruct (Req_EM_T x 0) as [Z|NZ].
-  - subst x. pose proof (zero_below_threshold a b minlog _ y' He Hab H) as Hz.
-    destruct (Rlt_dec y' (zero_threshold b minlog (log2R (1 + r)))) as [_|N]; [|contradiction].
+  - subst x. pose proof (zero_below_threshold a ta b tb minlog _ t y' He Ht Hab Htt H) as Hz.
+    destruct (Rlt_dec y' (zero_threshold b tb minlog (log2R (1 + r)) t)) as [_|N]; [|contradiction].
     unfold is_neg. destruct (Rlt_dec 0 0) as [F|_]; [lra|].
     rewrite Rminus_0_r, Rabs_R0, Rmult_0_r. repeat split; intros; lra.
-  - pose proof (nonzero_above_threshold b minlog _ _ y' He Hb (Hmin NZ) H) as Hn.
-    destruct (Rlt_dec y' (zero_threshold b minlog (log2R (1 + r)))) as [F|_]; [contradiction|].
+  - pose proof (nonzero_above_threshold b tb minlog _ t _ y' He Ht Hb Htb (Hmin NZ) H) as Hn.
+    destruct (Rlt_dec y' (zero_threshold b tb minlog (log2R (1 + r)) t)) as [F|_]; [contradiction|].
     assert (Hax : 0 < Rabs x) by (apply Rabs_pos_lt, NZ).
     pose proof (log_domain_bound r (Rabs x) y' Hr Hax H) as B.
     pose proof (exp2_pos y') as P.
